@@ -207,6 +207,35 @@ template <typename F> static void op_pow(const Case& c, Outcome& o) {
   if (y == -1) CHK(64, dqq(toL(g), toL(glm::inverse(q))), 64 * u / m, 0, 7, "pow(q, -1) is not inverse(q)");
 }
 
+// ============================================================== op: quatLookAt{,RH,LH}(direction, up), extractRealComponent, orientate2, dual_quat_identity
+// quatLookAtRH: the rotation whose -z axis is `direction` (LH: +z) with +y in the half plane of `up`; quatLookAt is the variant of the configured handedness.
+template <typename F> static void op_lookat(const Case& c, Outcome& o) {
+  typedef glm::qua<F> Q; typedef glm::vec<3, F> V3; const L u = FT<F>::u();
+  V3 d0 = getv<F>(c.w), up = getv<F>(c.w + 3); LV dl = toL(d0), ul = toL(up); L ld = vlen(dl), lu = vlen(ul);
+  if (!(ld > 0 && lu >= 0.5L)) { o.nontrivial = false; return; }      // `up` of ordinary magnitude (the builder clamps |up x dir|^2 at 1e-5 instead of normalising a tiny one)
+  LV dh = vhat(dl); V3 dir((F)dh.x, (F)dh.y, (F)dh.z); LV dq = toL(dir); LV cr = vcross(ul, dq); L sn = vlen(cr) / lu;      // sine of the angle between up and direction
+  if (!(sn > 0.05L)) { o.nontrivial = false; return; }          // up (nearly) parallel to the view direction: no frame is defined
+  o.cls(0);
+  for (int lh = 0; lh < 2; ++lh) { Q q = lh ? glm::quatLookAtLH(dir, up) : glm::quatLookAtRH(dir, up); LQ ql = toL(q); o.res(FT<F>::bits(q.w), FT<F>::bits(q.x));
+    CHK(70, fabsl(qn2(ql) - 1), 64 * u / sn, 0, 1 + lh * 4, "quatLookAt: not a unit quaternion");
+    LQ qh = qhat(ql); LV fz = rotv(qh, LV{0, 0, lh ? 1.0L : -1.0L}), fy = rotv(qh, LV{0, 1, 0});
+    CHK(71, dvv(fz, dq), 64 * u / sn, fabsl(vdot(dq, dq) - 1), 2 + lh * 4, "quatLookAtRH/LH: the rotated -z (RH) / +z (LH) axis is not the view direction");
+    if (!(vdot(fy, ul) > 0)) { o.bad(3 + lh * 4, "quatLookAtRH/LH: the rotated +y axis is not in the half plane of up"); return; }
+    CHK(72, fabsl(vdot(vcross(fy, dq), vcross(ul, dq))) / (vlen(vcross(ul, dq))) - vlen(vcross(fy, dq)), 128 * u / sn, 0, 4 + lh * 4, "quatLookAtRH/LH: rotated +y, up and the direction are not coplanar"); }
+#if GLM_CONFIG_CLIP_CONTROL & GLM_CLIP_CONTROL_LH_BIT
+  { Q a = glm::quatLookAt(dir, up), b = glm::quatLookAtLH(dir, up); if (!(a.w == b.w && a.x == b.x && a.y == b.y && a.z == b.z)) { o.bad(9, "quatLookAt is not quatLookAtLH under GLM_FORCE_LEFT_HANDED"); return; } }
+#else
+  { Q a = glm::quatLookAt(dir, up), b = glm::quatLookAtRH(dir, up); if (!(a.w == b.w && a.x == b.x && a.y == b.y && a.z == b.z)) { o.bad(9, "quatLookAt is not quatLookAtRH in a right-handed configuration"); return; } }
+#endif
+  // extractRealComponent: the non-positive w that completes (x,y,z) to a unit quaternion
+  { LQ h = qhat(LQ{-fabsl(dl.x) - 1, dl.y, dl.z, ul.x}); Q q = Q::wxyz((F)h.w, (F)h.x, (F)h.y, (F)h.z); L want = -sqrtl(fmaxl(0, 1 - ((L)q.x * q.x + (L)q.y * q.y + (L)q.z * q.z))); F g = glm::extractRealComponent(q);
+    if (want < -0.1L) CHK(73, fabsl((L)g - want), 16 * u / -want, 0, 10, "extractRealComponent(q) is not -sqrt(1 - x^2 - y^2 - z^2)"); }
+  // orientate2(a): the 2x2 rotation by a
+  { F a = (F)(dl.x * 0.37L + ul.y); glm::mat<2, 2, F> m = glm::orientate2(a); L cs = cosl((L)a), s = sinl((L)a);
+    CHK(74, fmaxl(fmaxl(fabsl((L)m[0][0] - cs), fabsl((L)m[1][1] - cs)), fmaxl(fabsl((L)m[0][1] - s), fabsl((L)m[1][0] + s))), 4 * u, 0, 11, "orientate2(a) is not [[cos a, sin a], [-sin a, cos a]]"); }
+  { glm::tdualquat<F, glm::defaultp> id = glm::dual_quat_identity<F, glm::defaultp>(); if (!(id.real.w == 1 && id.real.x == 0 && id.real.y == 0 && id.real.z == 0 && id.dual.w == 0 && id.dual.x == 0 && id.dual.y == 0 && id.dual.z == 0)) { o.bad(12, "dual_quat_identity is not (1,0,0,0),(0,0,0,0)"); return; } }
+}
+
 // ============================================================== op 5: axis-angle and single-axis Euler forms
 static const LV AXES26[26] = {
   {-1,-1,-1},{-1,-1,0},{-1,-1,1},{-1,0,-1},{-1,0,0},{-1,0,1},{-1,1,-1},{-1,1,0},{-1,1,1},{0,-1,-1},{0,-1,0},{0,-1,1},{0,0,-1},
@@ -538,6 +567,7 @@ template <typename F> static void reg(Engine& E, const std::vector<LQ>& base, co
   { Op& op = E.add("quat(eulerAngles(q)) ~ q" + T, op_euler_roundtrip<F>); op.quick = {rotq}; op.thorough = {rott}; op.classes = EULCLASSES; }
   { Domain no = make_near_opposite<F>(); Op& op = E.add("qua(u,v)*u || v, rotation(u,v)" + T, op_twovec<F>); op.quick = {product("VEC3L^2", {v3, v3}), no}; op.classes = UVCLASSES; }
   { Op& op = E.add("pow(q,y), sqrt(q) = |q|^y (cos yt, n sin yt)" + T, op_pow<F>); op.quick = {product(rotq.name + " x POWY(0,-0,1e-9,1/4,1/2,1,3/2,2,3,-1,-1/2)", {rotq, range("Y", 0, 11, true)})}; op.thorough = {product(rott.name + " x POWY", {rott, range("Y", 0, 11, true)})}; op.classes = {"y=0", "w<-0.88", "w>0.88", "generic"}; }
+  { Op& op = E.add("quatLookAt/RH/LH(direction, up), extractRealComponent, orientate2, dual_quat_identity" + T, op_lookat<F>); op.quick = {product("VEC3L^2", {v3, v3})}; op.classes = {"frame defined"}; }
   { Op& op = E.add("q*inverse(q) = 1, conjugate = inverse" + T, op_inverse<F>); op.quick = {rotq}; op.thorough = {rott}; op.classes = QCLASSES; }
   { Domain aq = make_angles<F>("EULER_ANGLES_quick(k pi/8; +-pi/2 +- 10^-j, +-10^-j, +-(pi +- 10^-j), j in {1,3,5,7,9})", {1, 3, 5, 7, 9}, true), at = make_angles<F>("EULER_ANGLES(k pi/8; +-pi/2 +- 10^-j, +-10^-j, +-(pi +- 10^-j), j = 1..9)", {1, 2, 3, 4, 5, 6, 7, 8, 9}, true);
     Op& op = E.add("eulerAngleABC = A*B*C, eulerAngleABC(extractEulerAngleABC(M)) = M" + T, op_euler3<F>);
